@@ -134,3 +134,15 @@ package filehandler
 //@   loop 0: invariant (exists k int :: 0 <= k && k <= rangeindex && names[k] == "/") ==> s.SystemRoot
 //@   loop 0: invariant old(s.SystemRoot) ==> s.SystemRoot
 //@   loop 0: invariant forall x string :: old(has(s.Set, x) && s.Set[x]) ==> has(s.Set, x) && s.Set[x]
+
+// how a budget is configured: Add sets exactly the named counter to the given budget and leaves the others
+//@ func runner/ptrace/filehandler.NewSyscallCounter props C18
+//@   arith int
+//@   assigns nothing
+//@   ensures result != nil && forall x string :: !has(result, x)
+//@ func runner/ptrace/filehandler.(SyscallCounter).Add props C18
+//@   arith int
+//@   requires s != nil
+//@   assigns mapof(s)
+//@   ensures has(s, name) && s[name] == count
+//@   ensures forall x string :: x != name ==> has(s, x) == old(has(s, x)) && s[x] == old(s[x])
